@@ -78,4 +78,31 @@ IndInit ==
   /\ full = Gen(6) /\ kept = Gen(6) /\ last = Gen(3)
   /\ DOMAIN last = EP
   /\ IndInv
+
+(* ---- second half of C09: the retained history stays bounded ------------------------------ *)
+(* once every end point has pulled, at most ONE retained entry lies at or before the smallest  *)
+(* last request (everything older was dropped by the pull that made it the smallest)          *)
+AllPulled == \A x \in EP : last[x] # -1
+\* @type: Int;
+TMin == CHOOSE m \in {last[y] : y \in EP} : \A y \in EP : m <= last[y]
+BoundInv == AllPulled => \A a \in kept, b \in kept : (a <= TMin /\ b <= TMin) => a = b
+IndInv2 == IndInv /\ BoundInv
+(* the statement: retained <= (publications newer than the slowest end point's last request) + 1, *)
+(* as an injection-free cardinality fact: every retained entry except at most one is newer        *)
+Bound == AllPulled => \A a \in kept, b \in kept : (a # b /\ a < b) => b > TMin
+IndInit2 ==
+  /\ full = Gen(6) /\ kept = Gen(6) /\ last = Gen(3)
+  /\ DOMAIN last = EP
+  /\ IndInv2
+(* negative control: a rule that evicts only strictly below the second-newest entry <= tmin keeps *)
+(* two entries at or before tmin: BoundInv must fail for it                                       *)
+PullLazy ==
+  \E x \in EP, t \in Int :
+    /\ kept # {} /\ t >= last[x] /\ t >= 0
+    /\ \E a \in kept : a <= t
+    /\ \E a \in kept : a >= t
+    /\ last' = [last EXCEPT ![x] = t]
+    /\ kept' = kept
+    /\ UNCHANGED full
+NextLazy == Publish \/ PullLazy
 =============================================================================
